@@ -70,7 +70,7 @@ m = {
  "setup_cmd": "./run setup",
  "hooks": {
    "guard": "verif",
-   "enable": "go build -tags verif -overlay <generated json> (./run generates it: adds engine/overlay/zz_verif_export.go to package websocket; no file in /repo is edited)",
+   "enable": "go build -tags verif -overlay <generated json> (./run generates it: adds engine/overlay/zz_verif_export.go and zz_verif_export_pools.go to package websocket - for the sched/race flavours an instrumented copy of the package made by engine/instrument; no file in /repo is edited)",
    "baseline_off_cmd": "cd /repo && go test -vet=off -count=1 ./...",
    "source_commits": [],
    "add_only": True,
